@@ -326,7 +326,7 @@ theorem writes_tie :
     Generated.updateEdgeReceivers = ["cow|pp", "searched.p", "searched.pp", "searched.ppp"] ∧
     Generated.updateEdgeArgs = ["built", "cow|cp"] ∧
     Generated.nodeFieldAssigns = ["built.key", "built.paramChildIndex", "built.wildcardChildIndex", "updateEdge-receiver.children[]"] ∧
-    Generated.writableAdds = ["built", "cow|cp"] ∧
+    Generated.writableAdds = ["built", "clone"] ∧
     Generated.sliceMutations = ["made"] ∧
     Generated.writableResets = ["tXn.clone", "tXn.commit", "tXn.snapshot"] := by
   decide
